@@ -28,7 +28,7 @@ func init() {
 				"pipeline limiting is enabled and passes that semaphore on.",
 			NotCovered: "the bound (current <= stop) and liveness over all schedules: they follow from the extracted transition " +
 				"table and the lock/wake-up discipline by an invariant argument that the checker does not mechanise.",
-			Rules: map[string]string{"C18-R16": "while the limiter's shared mutex (counterCond.L) is held, only the counter, the condition variable, the gauges and the logger are called: no method of the wrapped listener or connection, which may block on a lock of its own while every listener of the limiter waits", "C18-R15": "tlsConn.Close closes the wrapped (limiter) connection on every path", "C18-R14": "ServerDNS.Start and ServerTLS.Start count their TCP accept loop in the wait group that Shutdown waits for before it releases the worker pool", "C18-R12": "the worker pool of the plain-DNS and DoT servers has no capacity limit, so Submit cannot fail on the accept path and strand a connection with its limiter slot (shared with C01-R9)", "C18-R13": "dnssvc.newListeners passes the configured connection limiter to newListenConfig as it is, for every protocol", "C18-R11": "an accepted connection is handed to its worker or closed on every path; closeListeners closes both listeners unconditionally", "C18-RC": "class rules (error chains, shadowed results, character classes, crossed arguments, pool constructors, array pools, loop completeness, loop-carried buffers, replacing setters, complete clones, Grow arithmetic, pooled-buffer escape, sorted searches, fresh decode targets, per-iteration objects, whole-message copies, codec guards) over the packages this property rests on", "C18-R10": "Shutdown waits for the connections before releasing the worker pool", "C18-R1": "counter transition tables", "C18-R2": "counter state only under counterCond.L",
+			Rules: map[string]string{"C18-R18": "every key of the TCP pipeline limit and the connection limit (ratelimit.tcp, ratelimit.connection_limit) of the documented sample configuration config.dist.yaml is named by a yaml tag of the configuration structure: a setting that the decoder ignores leaves its limiter switched off", "C18-R17": "closing a bind-to-device channel listener (or packet connection) closes its channel, which is what makes a blocked Accept (ReadFrom) return: the first Close closes the channel and marks the listener closed, a second one only reports net.ErrClosed", "C18-R16": "while the limiter's shared mutex (counterCond.L) is held, only the counter, the condition variable, the gauges and the logger are called: no method of the wrapped listener or connection, which may block on a lock of its own while every listener of the limiter waits", "C18-R15": "tlsConn.Close closes the wrapped (limiter) connection on every path", "C18-R14": "ServerDNS.Start and ServerTLS.Start count their TCP accept loop in the wait group that Shutdown waits for before it releases the worker pool", "C18-R12": "the worker pool of the plain-DNS and DoT servers has no capacity limit, so Submit cannot fail on the accept path and strand a connection with its limiter slot (shared with C01-R9)", "C18-R13": "dnssvc.newListeners passes the configured connection limiter to newListenConfig as it is, for every protocol", "C18-R11": "an accepted connection is handed to its worker or closed on every path; closeListeners closes both listeners unconditionally", "C18-RC": "class rules (error chains, shadowed results, character classes, crossed arguments, pool constructors, array pools, loop completeness, loop-carried buffers, replacing setters, complete clones, Grow arithmetic, pooled-buffer escape, sorted searches, fresh decode targets, per-iteration objects, whole-message copies, codec guards) over the packages this property rests on", "C18-R10": "Shutdown waits for the connections before releasing the worker pool", "C18-R1": "counter transition tables", "C18-R2": "counter state only under counterCond.L",
 				"C18-R3": "Broadcast after every state change that can release waiters; no Signal",
 				"C18-R4": "slot taken/released exactly once on every accept/close path", "C18-R8": "Close marks the listener closed and wakes all waiting accepts on every path, also when the underlying listener's Close fails",
 				"C18-R7": "limiter wiring: New builds one shared counter with the configured thresholds; Limit hands every listener that shared counter and condition variable; the limiting ListenConfig wraps every stream listener; dnssvc wraps the listen config whenever a limiter is configured; the YAML thresholds reach New unchanged",
@@ -37,6 +37,53 @@ func init() {
 }
 
 func runC18(c *an.Ctx) {
+	// ---- R18: the documented settings are read by the configuration structure
+	if n := sharedDistConfigKeys(c, "C18-R18", "ratelimit.tcp", "ratelimit.connection_limit"); n < 6 {
+		c.Und("C18-R18", "keys of config.dist.yaml", token.NoPos, "only %d key paths examined", n)
+	}
+	// ---- R17: Close of the channel listeners releases whoever waits in Accept / ReadFrom (Linux-only code)
+	if c.Config.GOOS == "" || c.Config.GOOS == "linux" {
+		c.Floor("C18-R17", 2)
+		for _, x := range [][2]string{{"bindtodevice.(*chanListener).Close", "p0.conns"}, {"bindtodevice.(*chanPacketConn).Close", "p0.sessions"}} {
+			ch := x[1]
+			decide(c, "C18-R17", x[0], an.DecideCfg{
+				Dom: an.Domain{"p0.isClosed": an.Bools},
+				OnCall: func(it *an.Interp, name string, args []an.AV) (an.AV, bool) {
+					if name == "bindtodevice.wrapConnError" {
+						return an.NonNil("closedErr"), true
+					}
+					return an.AV{}, false
+				},
+				Expect: func(f an.Features, o an.AOutcome) string {
+					closed := false
+					for _, e := range o.Effects {
+						if e.Kind == "call" && e.Name == "builtin.close" && len(e.Args) == 1 && e.Args[0] == ch {
+							closed = true
+						}
+					}
+					marked := false
+					for _, st := range o.Stores() {
+						if st == "p0.isClosed=true" {
+							marked = true
+						}
+					}
+					if len(o.Ret) != 1 {
+						return "an error result"
+					}
+					if f.B("p0.isClosed") {
+						if !closed && o.Ret[0].Kind != an.KNil {
+							return ""
+						}
+						return "an error and no second close of the channel for a closed listener"
+					}
+					if closed && marked && o.Ret[0].Kind == an.KNil {
+						return ""
+					}
+					return fmt.Sprintf("the channel %s closed (closed=%v), the listener marked closed (%v) and nil returned: a goroutine blocked in Accept / ReadFrom is released only by the closed channel", ch, closed, marked)
+				},
+			})
+		}
+	}
 	// ---- R16: nothing foreign is called while the limiter's shared mutex is held
 	if n := c18SharedMutexCallFree(c, "C18-R16"); n < 6 {
 		c.Und("C18-R16", "calls under the limiter's shared mutex", token.NoPos, "only %d calls under counterCond.L found in package connlimiter (6 confirmed by reading: two counter updates, Wait, two Broadcasts, the gauges)", n)
